@@ -510,6 +510,7 @@ func (w *worker) run(fc *fcase) {
 	}
 	w.recovered(fc, o)
 	w.judge(fc, o)
+	w.aftermath(fc, o)
 	// keep the store usable for the cases that follow
 	meth := o.wr.method
 	if (o.res.err != nil || o.res.status < 300) && meth != "GET" && meth != "HEAD" || w.n%64 == 0 {
@@ -675,6 +676,102 @@ func (w *worker) recovered(fc *fcase, o *outcome) {
 		line = strings.TrimLeft(line[k+5:], ": ")
 	}
 	w.c.Violation("recovered-panic:"+frame+":"+msgClass(line), fc.id, w.detail(fc, o, map[string]any{"log_excerpt": printable([]byte(txt[i:min(len(txt), i+1500)]), 1500)}))
+}
+
+// aftermath: a hostile document that the gateway ACCEPTED as a bucket setting is stored state, and every ordinary
+// request that reads it later is served by code that may not expect it. After each accepted bucket-level write with
+// a mutated body the ordinary operations are run on that bucket: none may panic (recovered or not), kill
+// or wedge the gateway (a 5xx answer as such is an observation). The store is restored afterwards so that the cases that follow do not meet the setting.
+func (w *worker) aftermath(fc *fcase, o *outcome) {
+	if o.res == nil || o.res.err != nil || o.res.status < 200 || o.res.status > 299 || o.wr.method == "GET" || o.wr.method == "HEAD" {
+		return
+	}
+	bodyMut := ""
+	for _, m := range fc.muts {
+		if strings.HasPrefix(m.field, "body:") {
+			bodyMut = m.class
+		}
+	}
+	if bodyMut == "" {
+		return
+	}
+	// request line: METHOD /bucket[?query] HTTP/1.1 - bucket level only
+	f := strings.Fields(o.wr.line)
+	if len(f) < 2 {
+		return
+	}
+	path, _, _ := strings.Cut(f[1], "?")
+	bucket := strings.Trim(path, "/")
+	if bucket == "" || strings.Contains(bucket, "/") || strings.ContainsAny(bucket, "%") {
+		return
+	}
+	if h := w.cl.HeadBucket(bucket); !h.OK() {
+		return
+	}
+	c := w.c
+	c.Add("aftermath_runs", 1)
+	type step struct {
+		name string
+		run  func() *s3c.Resp
+	}
+	key := "aftermath-object"
+	var up string
+	var part *s3c.Resp
+	steps := []step{
+		{"PutObject", func() *s3c.Resp { return w.cl.PutObject(bucket, key, []byte("ordinary data")) }},
+		{"GetObject", func() *s3c.Resp { return w.cl.GetObject(bucket, key) }},
+		{"HeadObject", func() *s3c.Resp { return w.cl.HeadObject(bucket, key) }},
+		{"CopyObject", func() *s3c.Resp { return w.cl.CopyObject(bucket, key, bucket, key+"-copy") }},
+		{"ListObjectsV2", func() *s3c.Resp { return w.cl.ListV2(bucket) }},
+		{"ListObjectVersions", func() *s3c.Resp { return w.cl.Sub("GET", bucket, "", "versions=", nil) }},
+		{"CreateMultipartUpload", func() *s3c.Resp { var r *s3c.Resp; up, r = w.cl.CreateMPU(bucket, key+"-mpu"); return r }},
+		{"UploadPart", func() *s3c.Resp { part = w.cl.UploadPart(bucket, key+"-mpu", up, 1, []byte("part data")); return part }},
+		{"CompleteMultipartUpload", func() *s3c.Resp {
+			return w.cl.CompleteMPU(bucket, key+"-mpu", up, []s3c.Part{{N: 1, ETag: part.Header.Get("Etag")}})
+		}},
+		{"PutObjectTagging", func() *s3c.Resp {
+			tb := s3c.TaggingXML(map[string]string{"a": "b"})
+			return w.cl.Sub("PUT", bucket, key, "tagging=", tb, "Content-MD5", s3c.MD5B64(tb))
+		}},
+		{"DeleteObject", func() *s3c.Resp { return w.cl.DeleteObject(bucket, key) }},
+		{"HeadBucket", func() *s3c.Resp { return w.cl.HeadBucket(bucket) }},
+	}
+	bad := false
+	for _, st := range steps {
+		if (st.name == "UploadPart" || st.name == "CompleteMultipartUpload") && (up == "" || (st.name == "CompleteMultipartUpload" && (part == nil || !part.OK()))) {
+			continue
+		}
+		r := st.run()
+		c.Eval(1)
+		what := fmt.Sprintf("aftermath:%s:after-accepted:%s:%s", st.name, fc.entry.Op, bodyMut)
+		if r.Err != nil {
+			if !w.g.Alive() || w.g.WaitExit(2*time.Second) {
+				cr := scrape(w.g)
+				d := w.detail(fc, o, map[string]any{"followup": st.name, "bucket": bucket})
+				if cr != nil {
+					d["crash"] = cr
+				}
+				c.Violation(what+":gateway-died", fc.id, d)
+				w.fatal = fmt.Errorf("gateway died in aftermath")
+				return
+			}
+			c.Violation(what+":unanswered", fc.id, w.detail(fc, o, map[string]any{"followup": st.name, "bucket": bucket, "error": r.Err.Error()}))
+			bad = true
+			break
+		}
+		if r.Status >= 500 {
+			// a well-formed InternalError document is an answer the property admits; what it rules out (a panic behind
+			// it) is read from the gateway log below
+			c.Observe(fmt.Sprintf("aftermath: %s answered %s after an accepted %s (%s)", st.name, r.String(), fc.entry.Op, bodyMut))
+		}
+	}
+	w.recovered(fc, o)
+	if !bad {
+		c.Distinct("aftermath|" + fc.entry.Op + "|" + bodyMut)
+	}
+	if err := w.restore(); err != nil {
+		w.fatal = err
+	}
 }
 
 // ---- response oracle -----------------------------------------------------------------------------
